@@ -48,6 +48,7 @@ func envU64(name string, def uint64) uint64 {
 type rec struct {
 	Ev       string          `json:"ev"`
 	Run      int             `json:"run"`
+	Sub      int             `json:"sub,omitempty"`
 	Res      *props.Result   `json:"res,omitempty"`
 	Sig      string          `json:"sig,omitempty"`
 	Scenario json.RawMessage `json:"scenario,omitempty"`
@@ -79,11 +80,21 @@ func TestSim(t *testing.T) {
 	}
 	switch mode {
 	case "meta":
+		p.Meta.Expand = p.Expand != nil
 		b, _ := json.Marshal(p.Meta)
 		_, _ = w.Write(b)
 		_ = w.WriteByte('\n')
 	case "gen":
 		sc := p.Gen(seed, envInt("VSIM_FROM", 0), tier)
+		if sub := envInt("VSIM_SUB", 0); sub > 0 && p.Expand != nil {
+			res := props.RunOne(t, p, sc, tier, 0)
+			vs := p.Expand(sc, res, tier)
+			if sub-1 >= len(vs) {
+				fmt.Fprintln(os.Stderr, "no such sub-run")
+				os.Exit(2)
+			}
+			sc = vs[sub-1]
+		}
 		b, _ := json.Marshal(sc)
 		_, _ = w.Write(b)
 		_ = w.WriteByte('\n')
@@ -93,16 +104,18 @@ func TestSim(t *testing.T) {
 		samples := envInt("VSIM_SAMPLES", 0)
 		budget := time.Duration(envInt("VSIM_BUDGET_MS", 0)) * time.Millisecond
 		start := time.Now()
-		for run := from; run < to; run += step {
-			if budget > 0 && time.Since(start) > budget {
-				break
+		subFrom := envInt("VSIM_SUBFROM", 0)
+		one := func(run, sub int, sc props.Scenario, quiet bool) *props.Result {
+			if !quiet {
+				emit(rec{Ev: "begin", Run: run, Sub: sub})
+				_ = w.Flush()
 			}
-			sc := p.Gen(seed, run, tier)
-			emit(rec{Ev: "begin", Run: run})
-			_ = w.Flush()
 			t0 := time.Now()
 			res := props.RunOne(t, p, sc, tier, 40)
-			r := rec{Ev: "end", Run: run, Res: res, WallUS: time.Since(t0).Microseconds()}
+			if quiet {
+				return res
+			}
+			r := rec{Ev: "end", Run: run, Sub: sub, Res: res, WallUS: time.Since(t0).Microseconds()}
 			if len(res.Violations) > 0 || res.HarnessError != "" || res.Inconclusive != "" {
 				r.Sig = props.Signature(id, sc, res)
 				r.Scenario, _ = json.Marshal(sc)
@@ -115,6 +128,28 @@ func TestSim(t *testing.T) {
 				}
 			}
 			emit(r)
+
+			return res
+		}
+	runs:
+		for run := from; run < to; run += step {
+			if budget > 0 && time.Since(start) > budget {
+				break
+			}
+			sc := p.Gen(seed, run, tier)
+			res := one(run, 0, sc, subFrom > 0)
+			if p.Expand != nil {
+				for j, v := range p.Expand(sc, res, tier) {
+					if j+1 < subFrom {
+						continue
+					}
+					if budget > 0 && time.Since(start) > budget {
+						break runs
+					}
+					one(run, j+1, v, false)
+				}
+			}
+			subFrom = 0
 		}
 		emit(rec{Ev: "done"})
 	case "replay", "shrink":
